@@ -57,3 +57,14 @@ Fixpoint resolve (order : list srcfile) (x : N) : option N :=
 (* no name is defined by two different files *)
 Definition no_dup (l : list srcfile) : Prop :=
   forall f g x, In f l -> In g l -> defines f x = true -> defines g x = true -> f_id f = f_id g.
+
+(* ---------------------------------------------------------------------------------------------
+   Known finding (KNOWN_FINDINGS.txt, C24 key order:generic-instance-emission-order).
+   The copies of a generic package / module are emitted in the order of `Symbol::generic_instances`,
+   which is the order in which the using files registered the instances, i.e. it follows the
+   processing order.  [uses] = per file (in processing order) the instances it mentions. *)
+Fixpoint reg_order (uses : list (list N)) (seen : list N) : list N :=
+  match uses with
+  | [] => rev seen
+  | f :: t => reg_order t (fold_left (fun acc x => if existsb (N.eqb x) acc then acc else x :: acc) f seen)
+  end.
